@@ -268,6 +268,10 @@ class Exec(Interp):
                 self.old_env = old_env
             try:
                 return src(self, env)
+            except (KeyError, AttributeError) as e:
+                # the contract names a local / field the function (no longer) has: undecided, not a checker crash
+                raise OutsideSubset("contract clause refers to a name the function does not define: %s %s"
+                                    % (type(e).__name__, e))
             finally:
                 self.old_env = prev_old
         try:
